@@ -132,20 +132,30 @@ func (br *xmpReader) readAttrValue(tag *Tag) (buf []byte, err error) {
 		if buf[0] == '=' && (buf[1] == '"' || buf[1] == '\'') {
 			delim := buf[1]
 			if b := bytes.IndexByte(buf[i:], delim); b >= 0 {
-				i += b
-				d = i + 1
-				if buf[i+1] == '>' {
-					d++
+				end := i + b
+				// White space may separate the value from what ends the tag.
+				j := end + 1
+				for j < len(buf) && isSpace(buf[j]) {
+					j++
+				}
+				if j+1 >= len(buf) && len(buf) >= s {
+					// What follows the value is not inside the window yet.
+					s += maxTagValueSize
+					continue
+				}
+				d = end + 1
+				if j < len(buf) && buf[j] == '>' {
+					d = j + 1
 					br.a = false
-				} else if buf[i+1] == '/' && buf[i+2] == '>' {
-					d += 2
+				} else if j+1 < len(buf) && buf[j] == '/' && buf[j+1] == '>' {
+					d = j + 2
 					tag.t = soloTag
 					br.a = false
 				}
 				if _, err = br.Discard(d); err != nil {
 					err = errors.Wrap(err, "Attr Value (discard)")
 				}
-				return buf[2:i], err
+				return buf[2:end], err
 			}
 		}
 		s += maxTagValueSize
